@@ -13,7 +13,7 @@ var opKindsModel = []string{
 	"remove", "remove", "removeI", "removeI", "removeI", "removeAbsent",
 	"get", "getI", "getAbsent", "clear", "clone", "clone", "switch", "switch",
 	"inorder", "after", "afterI", "afterI", "afterAbsent", "afterAbsent", "cursor", "cursorI", "cursorI",
-	"asc", "asc", "desc", "desc", "zig", "zig", "drain", "drain", "rm2", "rm2", "rm2", "bulkremove",
+	"asc", "asc", "desc", "desc", "zig", "zig", "drain", "drain", "rm2", "rm2", "rm2", "bulkremove", "prune",
 }
 
 var opKindsDepth = []string{
@@ -21,7 +21,7 @@ var opKindsDepth = []string{
 	"remove", "removeI", "removeI", "removeI", "removeAbsent",
 	"getI", "getAbsent", "clear",
 	"asc", "asc", "asc", "desc", "desc", "zig", "zig", "drain", "drain", "rm2",
-	"deep", "deep", "deep", "deep", "deep", "deep", "bulkremove", "clone", "switch", "switch",
+	"deep", "deep", "deep", "deep", "deep", "deep", "bulkremove", "prune", "clone", "switch", "switch",
 }
 
 func genOp(kinds []string) *rapid.Generator[Op] {
